@@ -13,7 +13,7 @@ TECHNIQUE = "explicit enumeration of all event histories (execute / check-condit
 RULE = ("all sequences of up to D events (D=5 quick, 6 thorough) over {execute GOOD, execute CHECK CONDITION, replug (node replaced by a new "
         "inode), unplug, sabotage (next close() of the live handle fails with EBADF), open-fault (the next open() of the device path fails once with EACCES)}, each followed by every closing event {none, close(), "
         "with-block normal exit, with-block exit by exception, SCSI facade with-block exit, exit of a facade that was used for and left another device before}, x replug detection {on, off} x {read-only, "
-        "read-write}; histories one event shorter also with the device path being a symbolic link to the node that is replaced, with the node being a character special file replaced by one of the same device number, and with the path being a link re-pointed to a node of another name while the old node stays (device object from init_device); histories with an unplug also with the node vanishing as ELOOP (self-referencing link) and ENOTDIR (its directory replaced by a file); histories with a command also with every command executed with en_raw_sense=True (the ATA PASS-THROUGH path); plus ISCSIDevice close/with/disconnect histories. states = distinct (reference-model state, observed handle set) "
+        "read-write}; histories one event shorter also with the device path being a symbolic link to the node that is replaced, with the node being a character special file replaced by one of the same device number, and with the path being a link re-pointed to a node of another name while the old node stays (device object from init_device); histories with an unplug also with the node vanishing as ELOOP (self-referencing link) and ENOTDIR (its directory replaced by a file); histories with a command also with every command executed with en_raw_sense=True (the ATA PASS-THROUGH path); histories without open-fault also over a class derived from SCSIDevice that overrides open() (os.open + os.fdopen, _file and _ino set as the inherited open() does); plus ISCSIDevice close/with/disconnect histories. states = distinct (reference-model state, observed handle set) "
         "pairs; transitions = events executed on the real device. Non-trivial = history contains replug, unplug or sabotage.")
 ASSUMPTIONS = [
     "device nodes are real files under /dev/shm/pyscsi-verif-<pid>/ (real inodes, real open/stat/close); replug = rename of a new file over the path, old inode kept alive by a hard link so inode numbers are never recycled",
@@ -46,7 +46,20 @@ class Boom(Exception):
     pass
 
 
-def run_history(detect, rw, events, closer, obs=None, symlink=False, chr=False, factory=False, vanish="unlink", raw=False):
+def fd_device_class():
+    """a device class derived from SCSIDevice that opens its node its own way (descriptor flags the built-in open() cannot give, e.g.
+    O_NONBLOCK for a drive without medium) and otherwise does what the inherited open() does: sets _file and _ino"""
+    import pyscsi.pyscsi.scsi_device as devmod
+
+    class FdDevice(devmod.SCSIDevice):
+        def open(self):
+            fd = os.open(self._file_name, (os.O_RDWR if self._read_write else os.O_RDONLY) | os.O_NONBLOCK)
+            self._file = os.fdopen(fd, "r+b" if self._read_write else "rb", buffering=0)
+            self._ino = devmod.get_inode(self._file_name)
+    return FdDevice
+
+
+def run_history(detect, rw, events, closer, obs=None, symlink=False, chr=False, factory=False, vanish="unlink", raw=False, subclass=False):
     """replay one history on a fresh device; returns violations"""
     install.ensure()
     from pyscsi.pyscsi.scsi_cdb_testunitready import TestUnitReady
@@ -80,6 +93,8 @@ def run_history(detect, rw, events, closer, obs=None, symlink=False, chr=False, 
         if factory:
             from pyscsi.utils import init_device
             dev = init_device(node.path, rw)          # (detection is on by default)
+        elif subclass:
+            dev = fd_device_class()(node.path, rw, detect)
         else:
             dev = SCSIDevice(node.path, rw, detect)
         devmod.open = failing_open
@@ -348,7 +363,7 @@ def run_case(case, obs=None):
         _, detect, rw, events, closer = case[:5]
         kind = case[5] if len(case) > 5 else 0
         return run_history(detect, rw, events, closer, obs, symlink=(kind == 1) or ("repoint" if kind == 3 else False), chr=kind == 2, factory=kind == 3,
-                           vanish={4: "eloop", 5: "enotdir"}.get(kind, "unlink"), raw=kind == 6)
+                           vanish={4: "eloop", 5: "enotdir"}.get(kind, "unlink"), raw=kind == 6, subclass=kind == 7)
     return run_iscsi(case[1], obs)
 
 
@@ -408,6 +423,9 @@ def run_partition(part, tier, seed):
             # ... and with every command executed the way ATA PASS-THROUGH is (en_raw_sense=True)
             if any(e in events for e in "xc"):
                 do(["sg", detect, rw, events, "close", 6], any(e in events for e in "ruso"), len(events))
+            # ... and with a device class derived from SCSIDevice that overrides open() (handle made from a descriptor)
+            if "o" not in events:
+                do(["sg", detect, rw, events, "close", 7], any(e in events for e in "rus"), len(events))
             if "u" in events:
                 do(["sg", detect, rw, events, "close", 4], True, len(events))
                 do(["sg", detect, rw, events, "close", 5], True, len(events))
